@@ -6,9 +6,7 @@ import (
 	"fmt"
 	"io"
 
-	"golang.org/x/net/html"
-
-	"github.com/titpetric/vuego/internal/helpers"
+	"github.com/titpetric/vuego/internal/parser"
 )
 
 // Render processes the loaded template and writes the output to w.
@@ -90,8 +88,13 @@ func (t *template) RenderReader(ctx context.Context, w io.Writer, r io.Reader) e
 	}
 
 	// Parse the template from reader as a fragment
-	body := helpers.GetBodyNode()
-	dom, err := html.ParseFragment(r, body)
+	// Full documents (with </html>) are parsed as documents, anything else as
+	// a fragment, exactly as templates loaded from files are.
+	templateBytes, err := io.ReadAll(r)
+	if err != nil {
+		return fmt.Errorf("error reading template: %w", err)
+	}
+	dom, err := parser.ParseTemplateBytes(templateBytes)
 	if err != nil {
 		return fmt.Errorf("error parsing template: %w", err)
 	}
